@@ -761,8 +761,8 @@ def make_groups(rng, tier):
             gen.id_num(st_["id"])
         reqs = []
         for scoped in (False, True):
-            for first, later in ((120, [730]), (499, [500, 1099]), (3, [1001])):
-                rq = make_request(gen, scoped, 1100, "existing_id", first, existing={"s00": "queued"})
+            for first, later in ((120, [730]), (499, [500, 999]), (3, [901])):
+                rq = make_request(gen, scoped, 1000, "existing_id", first, existing={"s00": "queued"})       # 1000 items: the largest batch publish accepts
                 if not rq:
                     continue
                 for k, pos in enumerate(later):
